@@ -102,7 +102,8 @@ structure FuncSt where
   kind : Kind := .undefined         -- who the last `to` was
   to : W64 := 0                     -- the last `to`
   machineCode : Option W64 := none  -- `func->machine_code` (= `call_addr`: no MIR_GEN_CALL_TRACE)
-  bbData : Bool := false            -- `item->data != NULL` (bb stubs exist)
+  bbData : Bool := false            -- `item->data` holds bb stubs
+  interpData : Bool := false        -- `item->data`/`insn->data` hold the interpreter's prepared code
   pending : Bool := false           -- the module is in `modules_to_link`
 deriving Repr
 
@@ -154,13 +155,15 @@ def FuncSt.load (s : FuncSt) (u fresh : W64) : FuncSt :=
 def stepF (u : W64) (e : Event) (f : Nat) (s : FuncSt) : FuncSt :=
   match e with
   | .load fs thunkAt => if f ∈ fs then s.load u (thunkAt f) else s
-  | .link i pub => if s.pending then { (s.setIface i (pub f)) with pending := false } else s
+  | .link i pub =>   -- `finish_func_interpretation (item)` precedes `set_interface (ctx, item)`
+    if s.pending then { ({ s with interpData := false }.setIface i (pub f)) with pending := false } else s
   | .setIface i g pub => if f = g then s.setIface i pub else s
   | .firstCall g pub =>
     if f = g then
       match s.kind with
       | .lazyWrapper => s.genCode pub
       | .bbWrapper => s.genBB pub
+      | .shim => { s with interpData := true }   -- the interpreter prepares the function on its first call
       | _ => s
     else s
   | .gen g pub => if f = g then s.genCode pub else s
@@ -183,24 +186,27 @@ def target (s : State) (f : Nat) : Option W64 :=
   | some a => thunkTarget a (s f).bytes
   | none => none
 
-/-- Histories the API admits: a function is used only after it was loaded; a module whose functions
-have bb stubs is not loaded again; `MIR_gen` is not
-applied to a function that already has bb stubs (`gen_assert (func_item->data == NULL)`), and the
-bb generator is not applied to a function that already has machine code or bb stubs. -/
+/-- Histories the API admits: a function is used only after it was loaded and linked (simplified);
+a module whose functions have bb stubs or were interpreted is not loaded again; the generator is not applied to a
+function whose `data` fields are in use (`gen_assert (func_item->data == NULL)`, mir-gen.c:9309):
+by bb stubs, or by the interpreter — `finish_func_interpretation` is reachable only through
+`MIR_link`, so a function that was already interpreted cannot be handed to the generator without
+re-loading it; the bb generator is not applied to a function that already has machine code. -/
 def admissible (s : State) : Event → Bool
-  | .load fs _ => fs.all fun f => !(s f).bbData   -- `assert (item->data == NULL)` in MIR_link
+  | .load fs _ => fs.all fun f => !(s f).bbData && !(s f).interpData   -- `assert (item->data == NULL)`, mir.c:1996
   | .link _ _ => true
   | .setIface i f _ =>
-    (s f).addr.isSome && (match i with
-      | .gen => !(s f).bbData
+    (s f).addr.isSome && !(s f).pending && (match i with
+      | .gen => !(s f).bbData && !(s f).interpData
       | _ => true)
   | .firstCall f _ =>
-    (s f).addr.isSome && (match (s f).kind with
-      | .lazyWrapper => !(s f).bbData
-      | .bbWrapper => (s f).machineCode.isNone && !(s f).bbData
+    (s f).addr.isSome && !(s f).pending && (match (s f).kind with
+      | .lazyWrapper => !(s f).bbData && !(s f).interpData
+      | .bbWrapper => (s f).machineCode.isNone && !(s f).bbData && !(s f).interpData
       | .undefined => false
       | _ => true)
-  | .gen f _ => (s f).addr.isSome && !(s f).bbData
-  | .bbgen f _ => (s f).addr.isSome && (s f).machineCode.isNone && !(s f).bbData
+  | .gen f _ => (s f).addr.isSome && !(s f).pending && !(s f).bbData && !(s f).interpData
+  | .bbgen f _ =>
+    (s f).addr.isSome && !(s f).pending && (s f).machineCode.isNone && !(s f).bbData && !(s f).interpData
 
 end MirVerif.Thunk
